@@ -4,6 +4,7 @@ CONSTANTS
   NApp = 1
   Ctls = {1, 2}
   AppendUnderLock = TRUE
+  DropUnderLock = TRUE
 SPECIFICATION Spec
 INVARIANTS AbsInv NeverPoisoned LockOK NoLatePush AtEnd
 PROPERTY Refines
